@@ -130,6 +130,22 @@ func (p c08) RunUnit(idx int, tier string, seed int64, focus map[string]string, 
 			}
 			empty := text[:es] + text[ee:]
 			labels := p.checkText(idx, rc, st, empty, es, "empty", rep)
+			// words offered for the empty value, typed in another letter case (identifiers are
+			// case sensitive: `True` is a reference, not the start of `true`)
+			typedSeen := map[string]bool{}
+			for _, w := range append([]string{"true", "false"}, c08LastWords...) {
+				if len(w) < 2 || !hclsyntax.ValidIdentifier(w) {
+					continue
+				}
+				for _, tv := range []string{strings.ToUpper(w[:1]), strings.ToUpper(w[:1]) + w[1:2], w[:1] + strings.ToUpper(w[1:2]), strings.ToUpper(w)} {
+					if tv == w[:len(tv)] || typedSeen[tv] || len(typedSeen) >= 10 {
+						continue
+					}
+					typedSeen[tv] = true
+					p.checkText(idx, rc, st, text[:es]+tv+text[ee:], es+len(tv), "typed:"+tv, rep)
+					rep.Count("typed_other_case_replays", 1)
+				}
+			}
 			// prefixes of up to two offered reference candidates
 			n := 0
 			for _, l := range labels {
@@ -152,6 +168,9 @@ func (p c08) RunUnit(idx int, tier string, seed int64, focus map[string]string, 
 		}
 	}
 }
+
+// c08LastWords: keyword / bool candidates of the last single-cursor checkText call.
+var c08LastWords []string
 
 // checkText runs the checks on one text; only>=0 restricts to one cursor.
 // It returns the labels of the reference candidates at that cursor.
@@ -244,14 +263,25 @@ func (p c08) checkText(unit int, rc Recipe, st State, text string, only int, mod
 			wantType = ae.OfType
 		}
 		typedPrefix := ""
-		if strings.HasPrefix(mode, "prefix:") {
+		if strings.HasPrefix(mode, "prefix:") || strings.HasPrefix(mode, "typed:") {
 			typedPrefix = string(src[cls.Attr.Expr.Range().Start.Byte:off])
+		}
+		if only >= 0 {
+			c08LastWords = nil
 		}
 		kinds := map[string]bool{}
 		for _, c := range cands.List {
 			k := candKind(c.Kind)
 			kinds[k] = true
 			switch c.Kind {
+			case lang.KeywordCandidateKind, lang.BoolCandidateKind:
+				if only >= 0 {
+					c08LastWords = append(c08LastWords, c.Label)
+				}
+				// identifiers are case sensitive: a word is offered only for text it starts with
+				if typedPrefix != "" && hclsyntax.ValidIdentifier(typedPrefix) && !strings.HasPrefix(c.Label, typedPrefix) {
+					viol("WORD-CANDIDATE ignores-typed-prefix kind="+k, fmt.Sprintf("%s candidate %q does not start with the typed text %q", k, c.Label, typedPrefix))
+				}
 			case lang.ReferenceCandidateKind:
 				if only >= 0 {
 					refLabels = append(refLabels, c.Label)
@@ -572,7 +602,6 @@ func (p c08) Replay(w *runner.Witness, rep *runner.Reporter) error {
 }
 
 func init() { Register(c08{}) }
-
 
 // crlfTwin asks for completion at every cursor of a file and at the corresponding cursor
 // of the same file written with CRLF line endings. The constraint at the cursor is the
